@@ -57,12 +57,18 @@ def c16_run(ctx):
         dim = len(sig) + 1
         fl = r.choice("gm")
         rows = operands(r, dim, fl, sig)
+        # a row whose stored coordinates contain NEGATIVE ZEROS (a bit pattern that `==` cannot tell from +0.0; the snapshots are bitwise)
+        nz = list(rows[0])
+        nz[1] = -0.0
+        if dim >= 3 and sig[1] in ("z", "eta"):
+            nz[2] = -0.0
+        rows = rows + [nz]
         sig2 = r.choice(C.SIGS[dim])
         rows2 = operands(r, dim, "g", sig2)
         extra = numpy.arange(len(rows), dtype=numpy.float64)
         makers = {
             "obj": lambda: C.obj_vec(fl, sig, rows[0]), "np": lambda: C.np_array(fl, sig, rows), "ak": lambda: C.ak_array(fl, sig, rows),
-            "ak-jagged": lambda: ak.unflatten(C.ak_array(fl, sig, rows), [2, 0, 3]),
+            "ak-jagged": lambda: ak.unflatten(C.ak_array(fl, sig, rows), [2, 0, len(rows) - 2]),
             "ak-extra": lambda: ak.with_field(C.ak_array(fl, sig, rows), extra, "charge"),
             "ak-record": lambda: C.ak_array(fl, sig, rows)[1],
         }
@@ -100,6 +106,21 @@ def c16_run(ctx):
                     n_calls += 1
                     if snapshot(v) != b1 or snapshot(w) != b2:
                         problems.append((f"operand-modified:{tag}:{otag}:{m}", f"{m} changed an operand ({tag} {sig} with {otag} {sig2})"))
+            # dimension-raising conversions whose imputed coordinate is given as an ARRAY (with a negative zero): neither the vector
+            # nor the caller's keyword array may change
+            if tag in ("np", "ak") and dim < 4:
+                kwname = "z" if dim == 2 else "t"
+                vals = numpy.array([(-0.0 if i % 2 else 0.5 + i) for i in range(len(rows))])
+                for m in (f"to_Vector{dim + 1}D", f"to_{dim + 1}D", "to_Vector4D"):
+                    kwa = vals.copy() if tag == "np" else ak.Array(vals.copy())
+                    b1, b2 = snapshot(v), snapshot(kwa)
+                    try:
+                        getattr(v, m)(**{("t" if m == "to_Vector4D" else kwname): kwa})
+                    except Exception:  # noqa: BLE001
+                        pass
+                    n_calls += 1
+                    if snapshot(v) != b1 or snapshot(kwa) != b2:
+                        problems.append((f"operand-modified:{tag}:{m}:keyword-array", f"{m}({kwname}=array) changed its {tag} operand or the keyword array ({sig})"))
             # reductions and numpy functions
             if tag in ("np", "ak", "ak-jagged"):
                 b1 = snapshot(v)
@@ -451,6 +472,36 @@ def c18_run(ctx):
                     problems.append((f"extra-fields:depth:{cname}", f"{cname} ({fl}:{sig} with g:{sig2}) returns extra fields {got_extra}, expected {want_extra} (only the first operand's, and only for single-vector operations)"))
                 if [len(x) for x in ak.to_list(res[ak.fields(res)[0]])] != [2, 0, 3, 2]:
                     problems.append((f"structure:depth:{cname}", f"{cname}: list structure {[len(x) for x in ak.to_list(res[ak.fields(res)[0]])]}, expected the broadcast structure [2, 0, 3, 2]"))
+        # array-valued SCALAR arguments whose structure differs from the vectors' (deeper lists, missing values): the result has the
+        # broadcast structure, in every field (coordinates and carried extras alike)
+        ang_deep = ak.Array([[0.1, 0.2], [], [0.3], [0.4, 0.5, 0.6], [0.7], [], [0.8, 0.9], [1.0]])
+        ang_opt = ak.Array([0.1, None, 0.3, 0.4, None, 0.6, 0.7, 0.8])
+        want_deep = [[0] * k for k in (2, 0, 1, 3, 1, 0, 2, 1)]
+        want_opt = [0, None, 0, 0, None, 0, 0, 0]
+        sc_calls = [("rotateZ", lambda v, a: v.rotateZ(a)), ("scale", lambda v, a: v.scale(a)), ("v * a", lambda v, a: v * a)]
+        if dim >= 3:
+            sc_calls += [("rotateX", lambda v, a: v.rotateX(a)), ("rotateY", lambda v, a: v.rotateY(a))]
+        if dim == 4:
+            sc_calls += [("boostX", lambda v, a: v.boostX(beta=a * 0.5)), ("boostZ", lambda v, a: v.boostZ(beta=a * 0.5))]
+        def fp(x):
+            return None if x is None else [fp(y) for y in x] if isinstance(x, list) else 0
+        for cname, f_ in sc_calls:
+            for aname, ang, want_st in (("deeper (jagged) argument", ang_deep, want_deep), ("argument with missing values", ang_opt, want_opt)):
+                for vname, varr in (("flat", flat), ("flat+extra", withx)):
+                    n += 1
+                    try:
+                        res = f_(varr, ang)
+                    except Exception as e:  # noqa: BLE001
+                        problems.append((f"raises:scalar-structure:{cname}", f"{cname} on {vname} {fl}:{sig} with a {aname}: {type(e).__name__}: {str(e)[:80]}"))
+                        continue
+                    per = {f: fp(ak.to_list(res[f])) for f in ak.fields(res)}
+                    # every COORDINATE has the broadcast structure (a vector is missing / repeated as a whole); a carried extra field has it
+                    # too or keeps the operand's own structure
+                    # (with a MISSING-VALUE argument the unchanged library leaves passed-through stored coordinates non-optional: tolerated)
+                    badc = {f: v for f, v in per.items() if f in COORD_FIELDS and v != want_st and not (ang is ang_opt and v == [0] * 8)}
+                    bade = {f: v for f, v in per.items() if f not in COORD_FIELDS and v != want_st and v != [0] * 8}
+                    if badc or bade or not per:
+                        problems.append((f"structure:scalar-structure:{cname}", f"{cname} on {vname} {fl}:{sig} with a {aname}: fields {str(badc or bade)[:200]} do not have the broadcast structure {want_st}; type {str(ak.type(res))[:120]}"))
         # a record selected from the array behaves like the object
         rec = layouts["jagged"][2][1]
         o = C.obj_vec(fl, sig, rows[4])
